@@ -813,12 +813,16 @@ impl Tera {
         })?;
         let tpl_name = name.unwrap_or(path_str);
 
+        #[cfg(tera_verif)]
+        crate::verif::fault_point("add_file.before_open", path);
         let mut f = File::open(path)
             .map_err(|e| Error::chain(format!("Couldn't open template '{:?}'", path), e))?;
 
         let mut content = String::new();
         f.read_to_string(&mut content)
             .map_err(|e| Error::chain(format!("Failed to read template '{:?}'", path), e))?;
+        #[cfg(tera_verif)]
+        crate::verif::fault_point("add_file.after_read", path);
 
         let template = Template::new(
             tpl_name,
@@ -1289,6 +1293,12 @@ impl Tera {
         let mut state = State::new_with_chunk(&component_context, chunk);
         state.filters = Some(&self.filters);
         vm.interpret(&mut state, &mut write)?;
+        #[cfg(tera_verif)]
+        crate::verif::end_of_render(
+            state.stack.len(),
+            state.for_loops.len(),
+            state.capture_buffers.len(),
+        );
 
         Ok(())
     }
